@@ -228,6 +228,9 @@ func cmdCheck(args []string) {
 				continue
 			}
 			// not discharged
+			if st == "error" {
+				problems = append(problems, "SOLVER-ERROR on "+o.Name+": "+strings.ReplaceAll(o.Result.Output, "\n", " "))
+			}
 			file := filepath.Join(rdir, sanitizeFile(o.Name)+".txt")
 			var b strings.Builder
 			fmt.Fprintf(&b, "property:   %s\nobligation: %s\nkind:       %s\nfunction:   %s\nposition:   %s\nclause:     %s\nstatus:     %s\nsmt file:   %s\n\nsolver output:\n%s\n", *prop, o.Name, o.Kind, o.Func, o.Pos, o.Clause, st,
